@@ -98,10 +98,11 @@ void view_case(Ctx &c, Block &b, int ai) {
             // a (count, offset) request relative to the view: inside / touching / crossing the window edge
             std::vector<long> off(R), cnt(R); bool crossing = false; int form = (int)r.weighted({6, 1, 1});   // 0: count+offset, 1: empty offset, 2: empty count and offset
             for (size_t d = 0; d < R; d++) {
-                int k = (int)r.weighted({5, 3, 2});
+                int k = (int)r.weighted({5, 3, 2, 1});
                 if (k == 0) { off[d] = (long)r.u(wcnt[d]); cnt[d] = 1 + (long)r.u(wcnt[d] - off[d]); }
                 else if (k == 1) { off[d] = (long)r.u(wcnt[d]); cnt[d] = wcnt[d] - off[d]; }                        // touches the edge
-                else { off[d] = (long)r.u(wcnt[d] + 1); cnt[d] = wcnt[d] - off[d] + 1 + (long)r.u(2); crossing = true; }   // crosses the edge (may still lie inside the array)
+                else if (k == 2) { off[d] = (long)r.u(wcnt[d] + 1); cnt[d] = wcnt[d] - off[d] + 1 + (long)r.u(2); crossing = true; }   // crosses the edge (may still lie inside the array)
+                else { long j = 1 + (long)r.u(std::max<long>(1, std::min<long>(wcnt[d], 3))); off[d] = -j; cnt[d] = j + (long)r.u(wcnt[d] - std::min(j, wcnt[d]) + 1); if (cnt[d] < 1) cnt[d] = 1; crossing = true; }   // offset of 2^64 - j: offset + count wraps around to a value inside the window
             }
             if (form == 1) { off.assign(R, 0); crossing = false; for (size_t d = 0; d < R; d++) if (cnt[d] > wcnt[d]) crossing = true; }
             if (form == 2) { off.assign(R, 0); cnt = wcnt; crossing = false; }
@@ -150,6 +151,7 @@ void view_case(Ctx &c, Block &b, int ai) {
     for (int k = 0; k < 3; k++) {
         std::vector<long> woff(R), wcnt(R); for (size_t d = 0; d < R; d++) { woff[d] = (long)r.u(shape[d]); wcnt[d] = 1 + (long)r.u(shape[d] - woff[d]); }
         size_t d = r.u(R); wcnt[d] = shape[d] - woff[d] + 1 + (long)r.u(3);
+        if (k == 2) { if (r.chance(0.5)) wcnt[d] = -(long)(1 + r.u(woff[d] + 1)); else woff[d] = -(long)(1 + r.u(2)), wcnt[d] = 1 + (long)r.u(2) + 1; }   // 2^64 - j: offset + count wraps around into the array
         c.op("DataView-crossing-array-edge | off=" + vshow(woff) + " cnt=" + vshow(wcnt));
         bool threw = false; try { DataView v(a, to_nd(wcnt), to_nd(woff)); } catch (std::exception &) { threw = true; }
         c.check(threw, "C17/view/window-outside-array-accepted", [&] { return "window off=" + vshow(woff) + " cnt=" + vshow(wcnt) + " on array " + vshow(shape) + " was accepted"; });
@@ -165,7 +167,7 @@ void run_case(Ctx &c) {
     c.nontrivial = c.checks > 20; f.close();
 }
 long ncases(const std::string &tier) { return tier == "quick" ? 150 : 4000; }
-std::vector<std::string> witnesses() { return {"d2-slice-fewer-entries"}; }
+std::vector<std::string> witnesses() { return {"d2-slice-fewer-entries", "d32-view-offset-wraps"}; }
 void run_witness(Ctx &c, const std::string &name) {
     File f = File::open(c.path("w.nix"), FileMode::Overwrite); Block b = f.createBlock("b", "t");
     if (name == "d2-slice-fewer-entries") {
@@ -183,6 +185,27 @@ void run_witness(Ctx &c, const std::string &name) {
         c.op("dataSlice Exclusive none-given");
         Got g = retrieve([&] { return util::dataSlice(A.da, {}, {}); }); Box whole; whole.lo = {0, 0}; whole.hi = {3, 4};
         std::string d = compare_box(A, whole, g); c.check(d.empty(), "C17/slice/expect-data/Exclusive/none-given", d);
+    }
+    if (name == "d32-view-offset-wraps") {
+        // window [3,7) of 0..9; a request of 2 elements at view offset 2^64-1: offset + count wraps to 1 <= 4. It must be refused,
+        // nothing may be transferred and nothing outside the window may be written; the same for a window whose offset + count wraps
+        DataArray a = b.createDataArray("a", "t", DataType::Double, NDSize{10});
+        std::vector<double> lin(10); for (int i = 0; i < 10; i++) lin[i] = i; a.setData(DataType::Double, lin.data(), NDSize{10}, NDSize{0});
+        DataView v(a, NDSize{4}, NDSize{3});
+        double buf[2] = {-7, -7}; bool threw = false, oob = false;
+        c.op("view-read wrapping offset");
+        try { v.getData(DataType::Double, buf, NDSize{2}, NDSize{(ndsize_t)-1}); } catch (OutOfBounds &) { threw = oob = true; } catch (std::exception &) { threw = true; }
+        c.check(threw && oob, "C17/view/read-crossing-must-throw", std::string(threw ? "wrong exception type" : "no exception") + " for count {2} at view offset {2^64-1} on window {4}@{3}");
+        c.check(buf[0] == -7 && buf[1] == -7, "C17/view/read-crossing-transferred-data", "rejected read delivered " + dstr(buf[0]) + "," + dstr(buf[1]));
+        double w[2] = {100, 101}; threw = oob = false;
+        c.op("view-write wrapping offset");
+        try { v.setData(DataType::Double, w, NDSize{2}, NDSize{(ndsize_t)-1}); } catch (OutOfBounds &) { threw = oob = true; } catch (std::exception &) { threw = true; }
+        c.check(threw && oob, "C17/view/write-crossing-must-throw", std::string(threw ? "wrong exception type" : "no exception") + " for a write of {2} at view offset {2^64-1}");
+        std::vector<double> now(10); a.getData(DataType::Double, now.data(), NDSize{10}, NDSize{0});
+        c.check(now == lin, "C17/view/write-content/Double/crossing", "a refused write through the view changed the array (element 2 = " + dstr(now[2]) + ")");
+        threw = false; c.op("DataView wrapping window");
+        try { DataView v2(a, NDSize{(ndsize_t)-2}, NDSize{4}); } catch (std::exception &) { threw = true; }
+        c.check(threw, "C17/view/window-outside-array-accepted", "window count {2^64-2} at offset {4} on an array of 10 was accepted");
     }
     c.nontrivial = true; f.close();
 }
